@@ -393,7 +393,21 @@ class Credential(object):
         """
         Parse a DER-encoded [X.690] SubjectPublicKeyInfo
         to extract public key
+
+        :raises SyntaxError: when the SubjectPublicKeyInfo is malformed
         """
+        try:
+            self._parse_pub_key()
+        except SyntaxError:
+            raise
+        except (IndexError, KeyError, ValueError, TypeError, AssertionError,
+                OverflowError) as exc:
+            # same as in X509.parseBinary: the low level ASN.1 and key
+            # parsers signal malformed input in many ways
+            raise SyntaxError("Malformed credential: {0!r}".format(exc))
+
+    def _parse_pub_key(self):
+        """Parse the SubjectPublicKeyInfo of the credential."""
         parser = ASN1Parser(self.subject_public_key_info)
         alg_identifier = parser.getChild(0)
         alg_identifier_len = parser.getChildCount()
